@@ -213,7 +213,12 @@ func inToFixed(e ast.Expr) (col string, vals []Value) {
 func fixedAnd(fixed Fixed, col string, vals ...Value) (Fixed, bool) {
 	vs := make([]string, len(vals))
 	for i, v := range vals {
-		vs[i] = Pack(v.(Packable))
+		p, ok := v.(Packable)
+		if !ok {
+			// e.g. a class or function constant, cannot be a stored value
+			return fixed, false
+		}
+		vs[i] = Pack(p)
 	}
 	for i, f := range fixed {
 		if f.col == col {
